@@ -69,6 +69,9 @@ pub struct CaseSpec {
     /// cpu set for taskset-like affinity (empty = all)
     #[serde(default)]
     pub cpus: Vec<usize>,
+    /// give stdin (the script for Delivery::Stdin, else `stdin`) through a pipe instead of a file
+    #[serde(default)]
+    pub stdin_pipe: bool,
 }
 
 #[derive(Clone, Debug, Serialize, Deserialize, PartialEq, Eq)]
@@ -367,7 +370,14 @@ pub fn run_in_scratch(kind: ShellKind, spec: &CaseSpec, opts: &RunOpts, scratch:
             stdin_file = Some(std::fs::File::open(&p).expect("stdin"));
         }
     }
+    let mut pipe_payload: Option<Vec<u8>> = None;
     match stdin_file {
+        Some(mut f) if spec.stdin_pipe => {
+            let mut buf = Vec::new();
+            let _ = f.read_to_end(&mut buf);
+            pipe_payload = Some(buf);
+            cmd.stdin(Stdio::piped());
+        }
         Some(f) => {
             cmd.stdin(Stdio::from(f));
         }
@@ -418,6 +428,11 @@ pub fn run_in_scratch(kind: ShellKind, spec: &CaseSpec, opts: &RunOpts, scratch:
             }
         }
     };
+    if let (Some(payload), Some(mut si)) = (pipe_payload, child.stdin.take()) {
+        std::thread::spawn(move || {
+            let _ = si.write_all(&payload);
+        });
+    }
     let pid = child.id() as i32;
     let flag = Arc::new(AtomicBool::new(false));
     watch_table()
